@@ -164,8 +164,10 @@ def run_property(mod, tier, seed, replay=None):
     if pv:
         i, msg = pv[0]
         key = mod.finding_key(lines[i]) if hasattr(mod, "finding_key") else lines[i].split()[0]
+        ridx = [i] + (mod.replay_with(lines, i) if hasattr(mod, "replay_with") else [])
         payload = dict(property=pid, tier=tier, seed=seed, kind="property-fails-on-implementation", what=msg, key=key,
-                       requests=[lines[i]], model=[model[i]], impl_checked=[checked[i]], impl_release=[release[i]],
+                       requests=[lines[k] for k in ridx], model=[model[k] for k in ridx],
+                       impl_checked=[checked[k] for k in ridx], impl_release=[release[k] for k in ridx],
                        other_failing=[dict(request=lines[k][:300], what=m) for k, m in pv[1:6]])
         res.violations.append((key, msg, payload, True))
     elif dis or broken_obligations:
